@@ -1,0 +1,26 @@
+//go:build verif
+
+// Verification contracts (comments only; compiled only with -tags verif).
+// Checked by /verif/bin/govc; see /verif/DESIGN.md.
+
+package dynamic
+
+//@ type Service
+//@   // established by New (parseAndCheckParameters rejects a nil majordomo)
+//@   valid self.majordomo != nil
+//@
+//@ // math/rand.Intn panics for n <= 0; otherwise the result is in [0,n)
+//@ extern math/rand.Intn
+//@   requires n > 0
+//@   ensures 0 <= result && result < n
+//@
+//@ func (*Service).Graffiti
+//@   requires s != nil
+//@
+//@ func New
+//@   // options are built by the With… functions in main.go; none of them is nil
+//@   requires forall k int :: 0 <= k && k < len(params) ==> !isnil(params[k])
+//@
+//@ // strings.Split with a non-empty separator returns at least one element
+//@ extern strings.Split
+//@   ensures sep != "" ==> len(result) >= 1
